@@ -310,6 +310,13 @@ class AirTouchSocket(Generic[comms.Hdr]):
             _LOGGER.debug("_connect ignored. Already connected or connecting")
             return
 
+        if self._reset_in_progress:
+            # The old connection is still being closed (this can take a while
+            # if it has unsent data). reset_connection() re-connects when that
+            # has finished; connecting now would hold two connections at once.
+            _LOGGER.debug("_connect ignored. Connection reset in progress")
+            return
+
         _LOGGER.debug("Attempting to open connection to %s:%d", self.host, self.port)
         try:
             # Only one connection attempt may be in flight at a time, otherwise
